@@ -54,7 +54,7 @@ type VerifFrameInfo struct {
 	ModeLFDelta      [4]int
 	NumParts         int
 	UseSkipProba     bool
-	Dqm              [4][6]int // y1dc y1ac y2dc y2ac uvdc uvac
+	Dqm              [4][6]int    // y1dc y1ac y2dc y2ac uvdc uvac
 	FStrengths       [4][2][3]int // limit, ilevel, hev
 }
 
@@ -84,4 +84,10 @@ func VerifParseHeaders(data []byte) (VerifFrameInfo, error) {
 	fi.NumParts = int(dec.numPartsMinusOne) + 1
 	fi.UseSkipProba = dec.useSkipProba
 	return fi, nil
+}
+
+// VerifTables returns copies of the constant probability tables (for /verif's independent
+// stream emitter; the tables themselves are frozen by checksum obligations in Coq).
+func VerifTables() (coeffs0, coeffsUpdate [NumTypes][NumBands][NumCTX][NumProbas]uint8, bmodes [NumBModes][NumBModes][NumBModes - 1]uint8) {
+	return CoeffsProba0, CoeffsUpdateProba, KBModesProba
 }
